@@ -13,7 +13,10 @@ RULE = ("small random and tie-rich bases (both modes) x 6 queries, and shipped r
         "usable back-end: z3, rc2 and rc2-<engine> for every SAT engine that pysat can instantiate here (measured at run time); "
         "system-w and lex_inf across all of them, c-inference across the rc2 engines (strict mode); non-trivial = contingent query on a "
         "base with >= 2 finite layers; distinct by (base, query, operator)")
-ASSUMPTIONS = ["engines that cannot be instantiated in this sandbox (e.g. lingeling raises in RC2) are excluded and listed in the evidence"]
+ASSUMPTIONS = ["engines that cannot be instantiated in this sandbox (e.g. lingeling raises in RC2) are excluded and listed in the evidence",
+               "a SAT engine of the installed pysat that kills the interpreter on an input (observed: MapleChrono 'mpl' under System W, "
+               "signal 11) is not a usable engine on that input: the configuration is evaluated in a process of its own, left out of the "
+               "comparison and counted in the evidence (native_crash:*); this is third-party native code, not code of the repository"]
 
 CANDIDATES = ["g3", "g4", "g42", "cd", "cd15", "cd19", "m22", "mgh", "mc", "mcb", "mcm", "mpl", "gc3", "gc4", "mg3", "lgl", "mep"]
 
@@ -70,7 +73,8 @@ def compare(case, res, queries_txt=None):
             if ref is None:
                 break
             if r[0] != "ok":
-                if r[1] in ("empty", "inconsistent", "refused"):
+                if r[1] in ("empty", "inconsistent", "refused") or r[0] == "crash":
+                    # a SAT engine of the installed pysat that crashes natively is not a "usable engine" of the property
                     continue
                 c = dict(case, pair=[ref[0], k])
                 fails.append({"case": c, "impl": {ref[0]: ref[1][1], k: list(r[:2])}, "spec": "same answers under every back-end",
@@ -136,14 +140,15 @@ def run(ctx):
         # every engine is used, but spread over the cases (3 per case) to keep the quick tier short
         pass
     cases = answers.load_corpus("C11")
-    cases += answers.gen_cases(ctx, 70 if quick else 1200, (2, 5), (1, 6), [False], ties=0.5, consts=0.08)
-    cases += answers.gen_cases(ctx, 40 if quick else 800, (2, 5), (1, 6), [True], ties=0.4, consts=0.12)
+    cases += answers.gen_cases(ctx, 70 if quick else 1200, (2, 5), (1, 6), [False], ties=0.5, consts=0.08, rekey=0.3)
+    cases += answers.gen_cases(ctx, 40 if quick else 800, (2, 5), (1, 6), [True], ties=0.4, consts=0.12, rekey=0.3)
     jobs = []
     for c in cases:
-        c = {k: v for k, v in c.items() if not k.startswith("_")}
-        eng = engines if not quick else ctx.rng.sample(engines, min(4, len(engines)))
+        from_corpus = "note" in c
+        c = {k: v for k, v in c.items() if not k.startswith("_") and k != "note"}
+        eng = engines if (not quick or from_corpus) else ctx.rng.sample(engines, min(4, len(engines)))
         jobs.append((c, configs_for(c["weakly"], eng)))
-    results = rel.pmap(ctx, rel.eval_small, jobs)
+    results = rel.pmap(ctx, rel.eval_small, jobs, rel.eval_small_isolated(ctx))
     for (c, cfgs), res in zip(jobs, results):
         ctx.evaluations += len(c["queries"]) * len(cfgs)
         ctx.bump(f"small:mode={'ext' if c['weakly'] else 'strict'}")
